@@ -13,8 +13,12 @@ import (
 	"bytes"
 	"fmt"
 	"net/http"
+	"os"
+	"os/signal"
 	"strconv"
 	"strings"
+	"sync"
+	"syscall"
 	"time"
 
 	"github.com/LindsayBradford/crem/internal/pkg/server/admin"
@@ -238,55 +242,150 @@ func fullSolutionsCsv(sc *engScenario, rows [][]bool) []byte {
 // ---------------------------------------------------------------- admin multiplexer
 
 type adminRun struct {
-	c    *Ctx
-	mux  *admin.Mux
-	down bool
-	ops  []string
+	c          *Ctx
+	mux        *admin.Mux
+	down       bool
+	ops        []string
+	waiterDone chan struct{} // closed when WaitForShutdownSignal has returned: from then on nothing receives the shutdown signal
+	listeners  int           // goroutines parked in WaitForShutdownSignal's signal listener before this multiplexer's was started
+	signalled  bool
 }
 
+// reset starts a fresh admin multiplexer the way RestServer does (status DEAD from the configuration, RUNNING from Start).
 func (a *adminRun) reset() {
-	a.mux = new(admin.Mux).Initialise()
-	a.mux.SetLogger(loggers.NewNullLogger())
-	a.mux.Status = admin.ServiceStatus{ServiceName: "verif", Version: "0", Status: "RUNNING"}
-	a.down = false
-	go a.mux.WaitForShutdownSignal() // as RestServer.Start does; receives the one shutdown request of a server's life
+	mux := new(admin.Mux).Initialise()
+	mux.SetLogger(loggers.NewNullLogger())
+	mux.Status = admin.ServiceStatus{ServiceName: "verif", Version: "0", Status: "DEAD"}
+	a.attach(mux)
 	a.ops = []string{"reset"}
 	a.c.Op("reset", "ok")
 }
 
-func (a *adminRun) exec(method, path string) {
-	q := rawReq{method: method, path: path}
-	if path == "/shutdown" && method == "POST" && a.down {
-		return // a second shutdown request has no receiver on the unbuffered done-channel and would block: once per life, as in production
-	}
-	done := make(chan engResp, 1)
-	go func() { done <- serve(a.mux, q) }()
-	var resp engResp
+// attach takes over a multiplexer (engine-conc: the RestServer's own) and does what RestServer.Start does around
+// serving it: the status becomes RUNNING and the one shutdown waiter of a server's life waits for the signal.
+func (a *adminRun) attach(mux *admin.Mux) {
+	a.mux = mux
+	a.down = false
+	a.signalled = false
+	a.listeners = goroutinesBlocked("", "chan receive", signalListenerFrame)
+	a.mux.SetStatus("RUNNING")
+	wd := make(chan struct{})
+	a.waiterDone = wd
+	go func() {
+		mux.WaitForShutdownSignal()
+		close(wd)
+	}()
+}
+
+func (a *adminRun) waiterGone() bool {
 	select {
-	case resp = <-done:
-	case <-time.After(5 * time.Second):
-		a.c.Fail("C15:handler-returns", "engine:admin-handler-blocks", fmt.Sprintf("%s %s did not return within 5 s", method, path), append([]string(nil), a.ops...))
-		a.reset()
-		return
+	case <-a.waiterDone:
+		return true
+	default:
+		return false
+	}
+}
+
+// adminFallback is how long a handler may stay silent without being provably stuck before that alone is a failure: the
+// handlers take microseconds, the margin is for a machine that is busy with other things.
+const adminFallback = 60 * time.Second
+
+var sigintGuard sync.Once
+
+// interrupt delivers an operating system interrupt to the process, as a console's Ctrl-C does: the other way to end a
+// server's life (WaitForShutdownSignal's listener).  Protocol line `admin - SIGINT =`; the model's state does not change
+// (the status stays what it was).  Nothing here is judged by the clock: if the listener cannot be seen waiting, or the
+// waiter does not return, the step is skipped / only noted.
+func (a *adminRun) interrupt() string {
+	if a.signalled {
+		return ""
+	}
+	// the process must not die of the signal, whoever else listens
+	sigintGuard.Do(func() { signal.Notify(make(chan os.Signal, 1), os.Interrupt) })
+	deadline := time.Now().Add(5 * time.Second) // decides no verdict: the step is skipped if the listener is not seen
+	for goroutinesBlocked("", "chan receive", signalListenerFrame) <= a.listeners {
+		if time.Now().After(deadline) {
+			a.c.Stat("admin SIGINT skipped: listener not seen waiting")
+			return ""
+		}
+		time.Sleep(2 * time.Millisecond)
+	}
+	a.signalled = true
+	syscall.Kill(os.Getpid(), syscall.SIGINT)
+	select {
+	case <-a.waiterDone:
+	case <-time.After(adminFallback):
+		a.c.Note("admin: WaitForShutdownSignal did not return after an interrupt")
+	}
+	// every listener still around (those of earlier multiplexers too) has received the signal: let them all finish, so
+	// that the next multiplexer's count of waiting listeners starts from a settled number
+	for deadline = time.Now().Add(5 * time.Second); goroutinesBlocked("", "chan receive", signalListenerFrame) > 0 && time.Now().Before(deadline); {
+		time.Sleep(2 * time.Millisecond)
+	}
+	line := "admin - SIGINT ="
+	a.ops = append(a.ops, line)
+	a.c.Op(line, "signalled")
+	a.c.Stat("admin SIGINT")
+	return "signalled"
+}
+
+// exec sends one request and returns the canonical answer ("" if the handler did not return).
+func (a *adminRun) exec(method, path string) string {
+	if method == "SIGINT" && path == "" {
+		return a.interrupt()
+	}
+	q := rawReq{method: method, path: path}
+	done := make(chan engResp, 1)
+	gid := make(chan string, 1)
+	go func() {
+		gid <- goroutineName()
+		done <- serve(a.mux, q)
+	}()
+	id := <-gid
+	var resp engResp
+	mOp := method
+	if strings.ContainsAny(mOp, " \n\r") || mOp == "" {
+		mOp = "?"
+	}
+	pending := append(append([]string(nil), a.ops...), "admin - "+mOp+" "+escTok(path)) // the replay context of a request that does not return
+	started := time.Now()
+	wait := 2 * time.Millisecond
+waiting:
+	for {
+		select {
+		case resp = <-done:
+			break waiting
+		case <-time.After(wait):
+		}
+		if wait < 200*time.Millisecond {
+			wait *= 2
+		}
+		// "The handler returns" is decided structurally, not by the clock: the handler's goroutine is parked in a channel
+		// send inside shutdownHandler (under the multiplexer's request lock), and the only receiver there ever is — the
+		// shutdown waiter — has returned.  Nothing can wake it (closing the channel under it would be a panic).
+		if a.waiterGone() && goroutineBlocked(id, "chan send", shutdownHandlerFrame) {
+			a.c.Fail("C15:handler-returns", "engine:admin-handler-blocks",
+				fmt.Sprintf("admin %s %s never returns: its goroutine is parked in a channel send inside admin.(*Mux).shutdownHandler, holding the multiplexer's request lock, and the only receiver (WaitForShutdownSignal) returned after the first shutdown request; every later admin request waits for that lock", method, path),
+				pending)
+			a.c.Stat("admin handler blocked (structural)")
+			a.reset()
+			return ""
+		}
+		if time.Since(started) > adminFallback {
+			a.c.Fail("C15:handler-returns", "engine:admin-handler-blocks", fmt.Sprintf("admin %s %s did not return within %v (no parked channel send was seen)", method, path, adminFallback), pending)
+			a.reset()
+			return ""
+		}
 	}
 	obs := "-"
-	tok := ""
-	switch {
-	case resp.panicked != "":
-		obs, tok = "panic", "panic"
-		a.c.Fail("C15:no-panic", "engine:panic:admin:"+resp.site, fmt.Sprintf("%s %s panicked: %s", method, path, resp.panicked), append([]string(nil), a.ops...))
-	case resp.status == 200:
-		co := canonResp(canonCtx{}, rawReq{method: "GET", path: "/"}, resp) // a status document
-		tok = co.tok
-		for _, n := range co.notes {
-			a.c.Fail("C15:"+n, "engine:"+n, fmt.Sprintf("admin %s %s", method, path), nil)
-		}
-	default:
-		co := canonResp(canonCtx{}, q, resp)
-		tok = co.tok
-		for _, n := range co.notes {
-			a.c.Fail("C15:"+n, "engine:"+n, fmt.Sprintf("admin %s %s", method, path), nil)
-		}
+	co := canonAdmin(q, resp)
+	tok := co.tok
+	if resp.panicked != "" {
+		obs = "panic"
+		a.c.Fail("C15:no-panic", "engine:panic:admin:"+resp.site, fmt.Sprintf("%s %s panicked: %s", method, path, resp.panicked), pending)
+	}
+	for _, n := range co.notes {
+		a.c.Fail("C15:"+n, "engine:"+n, fmt.Sprintf("admin %s %s", method, path), nil)
 	}
 	switch resp.status {
 	case -1, 200, 400, 404, 405, 415, 500, 503:
@@ -300,14 +399,18 @@ func (a *adminRun) exec(method, path string) {
 	line := "admin " + obs + " " + m + " " + escTok(path)
 	a.ops = append(a.ops, line)
 	a.c.Op(line, tok)
-	a.c.Stat(fmt.Sprintf("admin %s %s | %d", m, path, resp.status))
-	a.c.Nontrivial(fmt.Sprintf("admin %s %s %d %v", m, path, resp.status, a.down))
+	a.c.Stat(fmt.Sprintf("admin %s %s | %s", m, path, tok))
+	a.c.Nontrivial(fmt.Sprintf("admin %s %s %s %v", m, path, tok, a.down))
 	if path == "/shutdown" && method == "POST" && resp.status == 200 {
+		if a.down {
+			a.c.Stat("admin: shutdown requested again")
+		}
 		a.down = true
 	}
 	if resp.panicked != "" {
 		a.reset()
 	}
+	return tok
 }
 
 func driveAdmin(c *Ctx, r *Rng, rounds int) {
@@ -323,6 +426,9 @@ func driveAdmin(c *Ctx, r *Rng, rounds int) {
 			}
 			if r.Chance(0.15) {
 				a.exec("POST", "/shutdown")
+			}
+			if r.Chance(0.05) {
+				a.exec("SIGINT", "")
 			}
 		}
 	}
